@@ -121,6 +121,7 @@ type FuncContract struct {
 	Witness  []string
 	Trusted  string
 	NoOverflow string
+	Wraparound string
 	File     string
 	Line     int
 	Imports  []*ast.ImportSpec
@@ -160,7 +161,7 @@ type ContractFile struct {
 var clauseKeywords = map[string]bool{
 	"requires": true, "ensures": true, "modifies": true, "pure": true, "observer": true, "loop": true,
 	"inline": true, "uses": true, "induct": true, "decreases": true, "witness": true, "trusted": true,
-	"trigger": true, "instance": true, "nooverflow": true, "assert": true,
+	"trigger": true, "instance": true, "nooverflow": true, "assert": true, "wraparound": true,
 }
 
 // ScanContractFile extracts the //@ blocks of a Go source file.
@@ -460,6 +461,11 @@ func (cf *ContractFile) addClause(fc *FuncContract, text string, line int) error
 			rest = "no reason given"
 		}
 		fc.NoOverflow = rest
+	case "wraparound":
+		if rest == "" {
+			rest = "signed arithmetic wraps"
+		}
+		fc.Wraparound = rest
 	case "instance":
 		fc.Instance = rest
 	case "loop":
